@@ -2,6 +2,7 @@ import HdVerif.Proofs.SegReadOrder
 import HdVerif.Proofs.SegMeta
 import HdVerif.Proofs.Effects
 import HdVerif.Proofs.SegReadTie
+import HdVerif.Proofs.SegReadSpec
 import HdVerif.Generated.T8h
 /-! # C02  Segment selection, ordering, combining and relabelling are exact
 
@@ -754,6 +755,149 @@ example : SegReadTie.combineStepGen .fractional 100 false .u8 [0, 3, 0] (⟨7, 2
 example : SegReadTie.combineStepGen .fractional 100 true .u8 [0, 3, 0] (⟨7, 2, [100, 100, 0]⟩, 5) = .ok [5, 5, 0] := by decide
 example : SegReadTie.combineStepGen .fractional 100 true .u8 [0, 3, 0] (⟨7, 2, [100, 50, 0]⟩, 5) = .error .value := by decide
 
+
+/-! ## ONE specification for every read (Model/SegReadSpec.lean) and the refinement theorem
+
+`maskPlane st k s` is "the mask of segment `s` at stack value `k`" for all three segmentation types.  `specOut` gives the result
+pixel by pixel (`stacked[plane][channel c]` = mask of the c-th requested segment; `combined[plane][pixel]` = `combinedSpec`:
+label of the requested segment present, the largest label if several are, 0 if none); `specRefuses` lists every reason for a
+refusal.  Neither contains a loop, a table or a dtype decision of the implementation.  The model `SegRead.read` — whose
+decisions are the regenerated definitions T8…T8q and whose loops are bridged to the source by T8j/T8k/T8m — is proved to refine
+it, for all objects, requests, entry points and options at once; the per-clause theorems above are its special cases. -/
+
+/-- **REFINEMENT (all types × all entry points × all options)**: on a well-formed object the read is accepted exactly when no
+listed reason for refusal applies, and then returns exactly the specified array. -/
+theorem read_refines_the_specification (st : Stored) (wf : WfObj st) (mode : Mode) (a : Bool) (rq : Req) :
+    (specRefuses st mode a rq = true → ∃ e, SegRead.read st mode a rq = .error e) ∧
+    (specRefuses st mode a rq = false → SegRead.read st mode a rq = .ok (specOut (effective st mode) rq)) :=
+  read_refines_spec st wf mode a rq
+
+/-- … so acceptance is decided by the list of reasons alone -/
+theorem accepted_iff_no_reason_to_refuse (st : Stored) (wf : WfObj st) (mode : Mode) (a : Bool) (rq : Req) :
+    (∃ out, SegRead.read st mode a rq = .ok out) ↔ specRefuses st mode a rq = false := by
+  obtain ⟨h1, h2⟩ := read_refines_spec st wf mode a rq
+  constructor
+  · rintro ⟨out, ho⟩
+    cases hs : specRefuses st mode a rq
+    · rfl
+    · obtain ⟨e, he⟩ := h1 hs
+      rw [ho] at he; cases he
+  · intro hs; exact ⟨_, h2 hs⟩
+
+/-- reading `specOut`, stacked: channel `c` of output plane `j` is the mask of the `c`-th requested segment at the `j`-th
+requested stack value — **any subset, any order**; entries mean value / MaximumFractionalValue for a rescaled FRACTIONAL read -/
+theorem spec_stacked_channel (st : Stored) (rq : Req) (hc : rq.combine = false) :
+    ∃ px, specOut st rq = .stacked (if willRescale st rq then st.mfv else 1) px ∧ px.length = rq.keys.length ∧
+      ∀ j (hj : j < rq.keys.length) (hj' : j < px.length), (px[j]).length = rq.segs.length ∧
+        ∀ c (hcl : c < rq.segs.length) (hcl' : c < (px[j]).length),
+          (px[j])[c] = (maskPlane st rq.keys[j] rq.segs[c]).map Int.ofNat := by
+  unfold specOut
+  simp only [hc, Bool.false_eq_true, ↓reduceIte]
+  refine ⟨_, rfl, by simp, ?_⟩
+  intro j hj hj'
+  simp
+
+/-- reading `specOut`, combined: a pixel at which exactly one requested segment is present holds that segment's label — its own
+number, or its 1-based position in the request under `relabel`; a pixel at which none is present holds 0; and whatever it
+holds is 0 or the label of a requested segment present there: **segments that were not requested never appear** -/
+theorem spec_combined_pixel (st : Stored) (segs : List Nat) (relabel : Bool) (k i : Nat) :
+    (∀ s, presentAt st segs k i = [s] → combinedSpec st segs relabel k i = outVal segs relabel s) ∧
+    (presentAt st segs k i = [] → combinedSpec st segs relabel k i = 0) ∧
+    (combinedSpec st segs relabel k i = 0 ∨
+      ∃ s ∈ segs, present st k s i = true ∧ combinedSpec st segs relabel k i = outVal segs relabel s) := by
+  refine ⟨?_, ?_, ?_⟩
+  · intro s h
+    unfold combinedSpec
+    rw [h]
+    have := outVal_nonneg segs relabel s
+    simp only [List.map_cons, List.map_nil, List.foldl_cons, List.foldl_nil]
+    omega
+  · intro h
+    unfold combinedSpec
+    rw [h]; rfl
+  · unfold combinedSpec
+    obtain ⟨_, _, h3⟩ := foldl_max_acc ((presentAt st segs k i).map (outVal segs relabel)) 0
+    rcases h3 with h | h
+    · exact Or.inl h
+    · right
+      obtain ⟨s, hs, hv⟩ := List.mem_map.mp h
+      obtain ⟨hs1, hs2⟩ := List.mem_filter.mp hs
+      exact ⟨s, hs1, hs2, hv.symm⟩
+
+/-- … and without overlap at most one requested segment is present at a pixel, so the two cases above are all there is -/
+theorem spec_no_overlap_unique (st : Stored) (segs keys : List Nat) (h : overlaps st segs keys = false) (k : Nat)
+    (hk : k ∈ keys) (i : Nat) (hi : i < st.npix) : presentAt st segs k i = [] ∨ ∃ s, presentAt st segs k i = [s] := by
+  unfold overlaps at h
+  rw [List.any_eq_false] at h
+  have := h k hk
+  rw [Bool.not_eq_true, List.any_eq_false] at this
+  have := this i (List.mem_range.mpr hi)
+  have hl : (presentAt st segs k i).length ≤ 1 := by simp at this; omega
+  match hp : presentAt st segs k i, hl with
+  | [], _ => exact Or.inl rfl
+  | [s], _ => exact Or.inr ⟨s, rfl⟩
+  | _ :: _ :: _, hl => simp at hl
+
+/-- **Overlap detection is sound and complete**: with the check on, a combined read of a BINARY / FRACTIONAL object is accepted
+iff it is accepted with the check off AND no two different requested segments share a pixel of a requested plane. -/
+theorem overlap_check_sound_and_complete (st : Stored) (wf : WfObj st) (mode : Mode) (a : Bool) (rq : Req)
+    (hc : rq.combine = true) (hnl : st.type ≠ .labelmap) :
+    (∃ out, SegRead.read st mode a { rq with skipOverlap := false } = .ok out) ↔
+      ((∃ out, SegRead.read st mode a { rq with skipOverlap := true } = .ok out) ∧
+        overlaps (effective st mode) rq.segs rq.keys = false) := by
+  rw [accepted_iff_no_reason_to_refuse st wf, accepted_iff_no_reason_to_refuse st wf]
+  have hty : (effective st mode).type ≠ .labelmap := by
+    rcases effective_cases st mode with h | h <;> rw [h] <;> exact hnl
+  have hty' : ((effective st mode).type != SegType.labelmap) = true := by simpa using hty
+  simp only [specRefuses_eq]
+  have he : entrySpecRefuses st mode a { rq with skipOverlap := false } =
+      entrySpecRefuses st mode a { rq with skipOverlap := true } := rfl
+  rw [he]
+  cases entrySpecRefuses st mode a { rq with skipOverlap := true }
+  · simp only [Bool.false_or, coreRefuses, ceiling, chosenDtype, willRescale, hc, hty', Bool.true_and, Bool.not_false,
+      Bool.not_true, Bool.and_false, Bool.or_false, Bool.and_true]
+    cases (overlaps (effective st mode) rq.segs rq.keys) <;> simp
+  · simp
+
+/-- **`skip_overlap_checks` lifts that one refusal and changes nothing else**: a read accepted with the check on gives the
+same array with the check off. -/
+theorem skip_overlap_checks_only_lifts_the_refusal (st : Stored) (wf : WfObj st) (mode : Mode) (a : Bool) (rq : Req) (out : Out)
+    (h : SegRead.read st mode a { rq with skipOverlap := false } = .ok out) :
+    SegRead.read st mode a { rq with skipOverlap := true } = .ok out := by
+  have hacc := (accepted_iff_no_reason_to_refuse st wf mode a _).mp ⟨out, h⟩
+  have hout : out = specOut (effective st mode) { rq with skipOverlap := false } := by
+    have := (read_refines_spec st wf mode a _).2 hacc
+    rw [h] at this; exact Except.ok.inj this
+  have hacc' : specRefuses st mode a { rq with skipOverlap := true } = false := by
+    rw [specRefuses_eq] at hacc ⊢
+    have he : entrySpecRefuses st mode a { rq with skipOverlap := true } =
+        entrySpecRefuses st mode a { rq with skipOverlap := false } := rfl
+    rw [he]
+    simp only [Bool.or_eq_false_iff] at hacc ⊢
+    refine ⟨hacc.1, ?_⟩
+    have h2 := hacc.2
+    simp only [coreRefuses, ceiling, chosenDtype, willRescale, Bool.or_eq_false_iff, Bool.and_eq_false_iff] at h2 ⊢
+    obtain ⟨⟨⟨h21, h22⟩, h23⟩, h24⟩ := h2
+    refine ⟨⟨⟨h21, h22⟩, h23⟩, ?_⟩
+    rcases h24 with h | h
+    · exact Or.inl h
+    · right
+      obtain ⟨⟨⟨ha, hb⟩, hcc⟩, _⟩ := h
+      exact ⟨⟨⟨ha, hb⟩, hcc⟩, by simp⟩
+  rw [(read_refines_spec st wf mode a _).2 hacc', hout]
+  rfl
+
+/-- **The output dtype decides acceptance only, never a value**: two accepted reads that differ only in `dtype` return the same
+array (the smallest unsigned type chosen for `dtype=None` included). -/
+theorem dtype_never_changes_a_value (st : Stored) (wf : WfObj st) (mode : Mode) (a : Bool) (rq : Req) (d' : Option DType)
+    (o o' : Out) (h : SegRead.read st mode a rq = .ok o) (h' : SegRead.read st mode a { rq with dtype := d' } = .ok o') :
+    o = o' := by
+  have e1 := (read_refines_spec st wf mode a rq).2 ((accepted_iff_no_reason_to_refuse st wf mode a rq).mp ⟨o, h⟩)
+  have e2 := (read_refines_spec st wf mode a _).2 ((accepted_iff_no_reason_to_refuse st wf mode a _).mp ⟨o', h'⟩)
+  rw [h] at e1; rw [h'] at e2
+  rw [Except.ok.inj e1, Except.ok.inj e2]
+  rfl
+
 /-! ## Metadata search -/
 
 /-- **Search is sound and complete, in sequence order**: `get_segment_numbers` returns exactly the numbers of the
@@ -951,5 +1095,42 @@ example : readCore exFrac { keys := [7], segs := [1], combine := false, relabel 
 
 example : readCore exFrac { keys := [7], segs := [1], combine := false, relabel := false, rescale := false, skipOverlap := false, dtype := some .bool } = .error .value :=
   capacity_refused exFrac _ (by decide) (by decide) (by decide)
+
+/-! Non-vacuity of the refinement theorem: the three example objects are well-formed in its sense; an accepted read of each is
+computed from the specification, a refused one from the list of reasons. -/
+
+theorem exStored_wfObj : WfObj exStored := Or.inl ⟨exStored_wf, by decide, by decide⟩
+theorem exBin_wfObj : WfObj exBin := Or.inr exBin_wf
+theorem exFrac_wfObj : WfObj exFrac := Or.inr exFrac_wf
+
+/-- label map, by dimension index, reversed subset, relabelled, an absent plane asserted empty -/
+example : SegRead.read exStored .div true { keys := [2, 5], segs := [700, 3], combine := true, relabel := true, rescale := true, skipOverlap := false, dtype := none } =
+    .ok (.combined [[0, 1, 1, 2], [0, 0, 0, 0]]) := by
+  rw [(read_refines_the_specification exStored exStored_wfObj _ _ _).2 (by decide)]
+  decide
+
+/-- BINARY, overlap of 1 and 2 at stack value 7: a reason for refusal with the check on, none with the check off (the larger
+label wins) -/
+example : overlaps exBin [2, 1] [8, 7] = true := by decide
+example : ∃ e, SegRead.read exBin .all true { keys := [8, 7], segs := [2, 1], combine := true, relabel := false, rescale := true, skipOverlap := false, dtype := none } = .error e :=
+  (read_refines_the_specification exBin exBin_wfObj _ _ _).1 (by decide)
+example : SegRead.read exBin .all true { keys := [8, 7], segs := [2, 1], combine := true, relabel := false, rescale := true, skipOverlap := true, dtype := none } =
+    .ok (.combined [[1, 0, 0], [1, 2, 2]]) := by
+  rw [(read_refines_the_specification exBin exBin_wfObj _ _ _).2 (by decide)]
+  decide
+
+/-- FRACTIONAL, raw values into uint16 -/
+example : SegRead.read exFrac .bySource false { keys := [8, 7], segs := [1, 2], combine := false, relabel := false, rescale := false, skipOverlap := false, dtype := some .u16 } =
+    .ok (.stacked 1 [[[100, 0], [0, 0]], [[50, 100], [0, 25]]]) := by
+  rw [(read_refines_the_specification exFrac exFrac_wfObj _ _ _).2 (by decide)]
+  decide
+
+/-- a number requested twice; an object that says spatial locations are not preserved, read by source without / with the flag -/
+example : readCore exBin { keys := [8], segs := [1, 3, 1], combine := false, relabel := false, rescale := true, skipOverlap := false, dtype := none } = .error .value :=
+  repeated_segment_refused exBin _ (by decide)
+example : SegRead.read { exBin with locPreserved := some false, refs := [7, 8] } .bySource false { keys := [8], segs := [1], combine := true, relabel := false, rescale := true, skipOverlap := false, dtype := none } = .error .runtime :=
+  source_indexing_refused _ _ _ _ (by decide)
+example : SegRead.read { exBin with locPreserved := some false, refs := [7, 8] } .bySource false { keys := [8], segs := [1], combine := true, relabel := false, rescale := true, skipOverlap := false, dtype := none, ignoreSpatial := true } = .ok (.combined [[1, 0, 0]]) := by
+  decide
 
 end HdVerif.C02
